@@ -21,7 +21,7 @@ from genlib import *
 
 LEAN_MODULES = ["MpirProofs.Props.C02_dcappr"]
 THEOREMS = ["Mpir.DcDivappr." + t for t in """
-dcDivappr_floor2_small dcDivappr_floor2 dcDivappr_far_off
+dcDivappr_floor2_small dcDivappr_floor2 dcDivappr_far_off dcDivappr_repaired_examples
 """.split()]
 PINS = [("mpn/generic/dc_divappr_q.c", None), ("mpn/generic/sb_divappr_q.c", "__divappr_helper")]
 TRUSTED = ["hand-written value-level model lean/Mpir/Model/DcDivappr.lean of mpn_dc_divappr_q (limb areas as naturals with explicit "
@@ -40,8 +40,11 @@ def P(k): return 1 << (64 * k)
 def params(ctx):
     base = getattr(ctx, "build", None) or os.environ.get("VERIF_REPO", "/repo")
     t = int(re.search(r"#define\s+DC_DIV_QR_THRESHOLD\s+(\d+)", open(os.path.join(base, "gmp-mparam.h")).read()).group(1))
-    c = int(re.search(r"#define\s+SB_DIVAPPR_Q_CUTOFF\s+(\d+)", open(os.path.join(base, "mpn/generic/dc_divappr_q.c")).read()).group(1))
-    return t, c
+    src = open(os.path.join(base, "mpn/generic/dc_divappr_q.c")).read()
+    c = int(re.search(r"#define\s+SB_DIVAPPR_Q_CUTOFF\s+(\d+)", src).group(1))
+    # which C is this?  the repaired one has `while ((mp_limb_signed_t) cy < 0)` and the sign test after the helper in the rare case
+    rep = 1 if re.search(r"while\s*\(\(mp_limb_signed_t\)\s*cy\s*<\s*0\)", src) and re.search(r"\(mp_limb_signed_t\)\s*np\[nn - qn\]\s*<\s*0", src) else 0
+    return t, c, rep
 
 def _divisors(rng, dn, quick):
     yield P(dn) // 2 + P(dn - 1) - 1 if dn > 1 else P(dn) // 2          # 0x80..0 then all ones: largest neglected part
@@ -70,26 +73,26 @@ def floor2_operands(n, Qh, nu=0):
     """The recipe of Props/C02_dcappr.lean (dcDivappr_floor2): window of 2n+1 limbs, divisor of n+1 limbs, on which the low-half
     sub-call takes the 'rare case' :78-81 with a remainder that carries the neglected products: quotient two too large."""
     sh = n // 2; sl = n - sh
-    D = (P(sh + 1) - 1) + P(n) // 2
+    D = (P(sh + 1) - 1) + P(n + 1) // 2
     Qh %= P(sh)
     E = sum(((Qh >> (64 * j)) % B) * (D % P(sh - 1 - j)) * P(sl + j) for j in range(sh))
     return Qh * P(sl) * D + P(n + sl + 1) // 2 + nu - E, D
 
 def gen_ops(rng, tier, ctx=None):
     quick = tier == "quick"
-    T, C = params(ctx)
+    T, C, REP = params(ctx)
     # the finding (known_findings.json: the model answers with `!modelspec`, the real function returns the same limbs):
     # n = 2C is the smallest size with a recursive low half; at n = 4C the defective call is the high half of the outer level
     for n in ([2 * C] if quick else [2 * C, 2 * C + 1, 2 * C + 5]):
         for Qh in [7, rng.getrandbits(64 * (n // 2))]:
             W, D = floor2_operands(n, Qh, rng.choice([0, rng.getrandbits(64 * n)]))
-            yield "dc_divappr_q_model %x %x %s %s" % (T, C, vec(limbs_of(W, 2 * n + 1)), vec(limbs_of(D, n + 1)))
+            yield "dc_divappr_q_model %x %x %x %s %s" % (T, C, REP, vec(limbs_of(W, 2 * n + 1)), vec(limbs_of(D, n + 1)))
             if Qh == 7 or not quick:
                 m = 2 * n; D2 = D * P(n) + (P(n) - 1); W2 = W * P(2 * n)
-                yield "dc_divappr_q_model %x %x %s %s" % (T, C, vec(limbs_of(W2, 2 * m + 1)), vec(limbs_of(D2, m + 1)))
+                yield "dc_divappr_q_model %x %x %x %s %s" % (T, C, REP, vec(limbs_of(W2, 2 * m + 1)), vec(limbs_of(D2, m + 1)))
     def emit(nn, dn, N, D):
         if 0 <= N < P(nn) * 1 and P(dn) // 2 <= D < P(dn) and N < 2 * D * P(nn - dn):
-            yield "dc_divappr_q_model %x %x %s %s" % (T, C, vec(limbs_of(N, nn)), vec(limbs_of(D, dn)))
+            yield "dc_divappr_q_model %x %x %x %s %s" % (T, C, REP, vec(limbs_of(N, nn)), vec(limbs_of(D, dn)))
     dns = [6, 7, 8, 9, 13, C - 1, C, C + 1, C + 2, T + 1, T + 2, 2 * C - 1, 2 * C, 2 * C + 1, 2 * C + 2, 4 * C + 1]
     if not quick: dns += [3 * C, 4 * C - 1, 4 * C + 3, 8 * C + 2]
     for dn in sorted(set(d for d in dns if d >= 6)):
